@@ -199,14 +199,15 @@ class Prefixed(BaseModel):
     #     yield cls.validate
 
     def __hash__(self):
-        return hash((self.number, self.prefix))
+        # Hash the value, not its representation: `1000 * m` and `1 * UNIT` are equal, and hash equally.
+        return hash(_exact(self))
 
     def __int__(self) -> int:
-        return int(self.number) * 10**self.prefix.value
+        return int(_exact(self))
 
     def __float__(self) -> float:
         """Convert to float"""
-        return float(self.number) * 10**self.prefix.value
+        return float(_exact(self))
 
     def __neg__(self) -> "Prefixed":
         return Prefixed.new(-self.number, self.prefix)
@@ -310,28 +311,22 @@ class Prefixed(BaseModel):
 
     # Comparison operators that respect class convention
     def __lt__(self, other) -> bool:
-        lhs, rhs = _scale_to_smaller(self, other)
-        return round(lhs.number, EPSILON) < round(rhs.number, EPSILON)
+        return _compare(self, other) < 0
 
     def __le__(self, other) -> bool:
-        lhs, rhs = _scale_to_smaller(self, other)
-        return round(lhs.number, EPSILON) <= round(rhs.number, EPSILON)
+        return _compare(self, other) <= 0
 
     def __eq__(self, other) -> bool:
-        lhs, rhs = _scale_to_smaller(self, other)
-        return round(lhs.number, EPSILON) == round(rhs.number, EPSILON)
+        return _compare(self, other) == 0
 
     def __ne__(self, other) -> bool:
-        lhs, rhs = _scale_to_smaller(self, other)
-        return round(lhs.number, EPSILON) != round(rhs.number, EPSILON)
+        return _compare(self, other) != 0
 
     def __gt__(self, other) -> bool:
-        lhs, rhs = _scale_to_smaller(self, other)
-        return round(lhs.number, EPSILON) > round(rhs.number, EPSILON)
+        return _compare(self, other) > 0
 
     def __ge__(self, other) -> bool:
-        lhs, rhs = _scale_to_smaller(self, other)
-        return round(lhs.number, EPSILON) >= round(rhs.number, EPSILON)
+        return _compare(self, other) >= 0
 
 
 # Union of the types which can be converted to `Prefixed`
@@ -375,6 +370,24 @@ def _subtract(lhs: Prefixed, rhs: Prefixed) -> Prefixed:
     smaller = lhs.prefix if lhs.prefix.value < rhs.prefix.value else rhs.prefix
     newnum = lhs.scale(smaller).number - rhs.scale(smaller).number
     return Prefixed.new(newnum, smaller)
+
+
+def _exact(p: Prefixed) -> Decimal:
+    """The exact decimal value of `p`, i.e. its number shifted by its prefix's exponent."""
+    return p.number.scaleb(p.prefix.value)
+
+
+def _compare(me: Prefixed, other: Union[Prefixed, ToPrefixed]) -> int:
+    """# Three-way comparison of two `Prefixed` numbers.
+    Returns a negative, zero, or positive integer for `me` less than, equal to, or greater than `other`.
+    Values closer than `10 ** -EPSILON`, in units of the smaller of the two prefixes, compare equal."""
+
+    other = to_prefixed(other)
+    smaller = min(me.prefix.value, other.prefix.value)
+    diff = (_exact(me) - _exact(other)).scaleb(-smaller)
+    if abs(diff) <= Decimal(1).scaleb(-EPSILON):
+        return 0
+    return 1 if diff > 0 else -1
 
 
 def _scale_to_smaller(
